@@ -28,6 +28,10 @@ pub enum Op {
     CloneH(u16),
     /// drop root `r`
     DropRoot(u16),
+    /// drop, one after the other, every root that points into the recorded
+    /// adoption closure of the object the selected handle points to (makes
+    /// mid-history orphaning likely)
+    DropClosureRoots(u16),
     /// clone handle `target`, store the clone in the value of the object that
     /// handle `owner` points to. adopt: 0 no, 1 before push (args: owner
     /// handle, the source handle), 2 after push (args: owner handle, the
@@ -120,6 +124,7 @@ pub fn op_compact(op: &Op) -> String {
         Op::New(d) => format!("New{{{}}}", d.iter().map(dact_compact).collect::<Vec<_>>().join(",")),
         Op::CloneH(h) => format!("Clone({})", h),
         Op::DropRoot(r) => format!("Drop({})", r),
+        Op::DropClosureRoots(h) => format!("DropClosureRoots({})", h),
         Op::Store { owner, target, adopt } => format!("Store({}<-{},a{})", owner, target, adopt),
         Op::AdoptSlot { pick, same_instance } => format!("AdoptSlot({}{})", pick, if *same_instance { ",same" } else { "" }),
         Op::Unadopt { a, b } => format!("Unadopt({},{})", a, b),
